@@ -8,8 +8,8 @@ statement quantified over EVERY call handler is unprovable (reference equality o
 tables / functions across an effectful sub-expression, `refEqOK`):
 
 * (F1/F2 — ε-equality of numbers — is FIXED in /repo: `numEqOK` is gone from `h8`)
-* F3    `concatOK`  — at every `..` that is folded: a number operand is formatted by Rust's `to_string`
-                      exactly as by the semantics' `N.toStr` (`%.14g`);
+* (F3 — Rust number formatting under `..` — is FIXED in /repo: the evaluator folds a number into a
+  string only where Rust's text is Lua's text, hypothesis `Agree.fmt`; `concatOK` is gone)
 * (F4 — an undetermined interpolated value declared pure — is FIXED in /repo: `interpOK` is gone)
 * `refEqOK`         — at every `==`/`~=` whose sides both evaluate to `Table` (or both to `Function`),
                       both sides are declared side-effect free.
@@ -18,17 +18,6 @@ namespace DarkluaModel.C08
 open DarkluaModel.Evaluator
 
 variable {N : NumOps}
-
-def isStrOrNum : LuaValue N → Bool
-  | .number _ | .string _ => true
-  | _ => false
-
-def numFmtOK (E : EvalOps N) : LuaValue N → Bool
-  | .number a => E.fmtRust a == N.toStr a
-  | _ => true
-
-def concatOK (E : EvalOps N) (l r : LuaValue N) : Bool :=
-  !(isStrOrNum l && isStrOrNum r) || (numFmtOK E l && numFmtOK E r)
 
 def refEqOK (E : EvalOps N) (l r : Expr) : Bool :=
   match evaluate E l, evaluate E r with
@@ -47,7 +36,6 @@ mutual
       h8 E l && h8 E r &&
         (match op with
          | .eq | .ne => refEqOK E l r
-         | .concat => concatOK E (evaluate E l) (evaluate E r)
          | _ => true)
     | .un _ e => h8 E e
     | .paren e => h8 E e
